@@ -22,11 +22,12 @@
      BRIDGE: on the labels of an `n`-qubit register a gate acts as its full matrix
      (`fullMat n g`, the model of `FusedGate(*range(n)).append(gate).matrix()`), for state vectors
      and density matrices; hence `liouvilleOf(choiTerms ch) · vec ρ = vec(applyChannelDM ch ρ)`:
-     the representation queries describe the executed generic path.
+     the representation queries describe the executed generic path; `to_pauli_liouville` is the
+     Pauli transfer matrix `⟨P_a, execute(ch, P_b)⟩` of the executed map.
 
   Scalars: an arbitrary commutative ring `α` with a ring endomorphism `conj` (parts 2–4), ℂ / any
   `RCLike` field for positivity.  Helper lemmas: QV/Proofs/ChannelsCP.lean, ChannelsTP.lean,
-  ChannelsSuper.lean, ChannelsPSD.lean.
+  ChannelsSuper.lean, ChannelsPSD.lean, ChannelsPTM.lean.
 -/
 import Mathlib.Data.Complex.Basic
 import Mathlib.Tactic.NormNum
@@ -35,6 +36,7 @@ import QV.Proofs.ChannelsCP
 import QV.Proofs.ChannelsTP
 import QV.Proofs.ChannelsSuper
 import QV.Proofs.ChannelsPSD
+import QV.Proofs.ChannelsPTM
 import QV.Props.C04
 namespace QV.Props.C04
 open QV Finset
@@ -200,7 +202,7 @@ example (q : Nat) (ρ : DM ℚ) (x : Lab) :
     (fun _ _ => rfl) (fun _ _ => rfl) [q] (List.nodup_singleton q) ?_ _ (by simp) ρ x
   intro a ha
   simp only [List.length_singleton, pow_one] at ha ⊢
-  interval_cases a <;> simp [sq, Finset.sum_range_succ] <;> norm_num
+  interval_cases a <;> norm_num [sq, Finset.sum_range_succ]
 
 /-- … and a matrix that is NOT row-stochastic is not trace preserving (`P = 2·1`, `d = 1`). -/
 example : ¬ ReadoutTP (RingHom.id ℤ) (fun _ _ => (2 : ℤ)) 1 := by
@@ -301,6 +303,7 @@ theorem T04_choi_eq_krausToChoi (conj : α → α) (D n : Nat) (col : Bool)
       = (terms.map (fun t => t.1 * krausToChoi conj (ordOf col) D n [t.2] r s)).sum :=
   choiOf_eq_krausToChoi conj D n col terms r s
 
+omit [CommRing α] in
 /-- the `_reshuffling` of the channel model is the one of the C17 model (all indices). -/
 theorem T04_reshuffle_eq_c17 (D : Nat) (col : Bool) (A : Nat → Nat → α) :
     reshuffle D col A = QV.Superop.reshuffle (ordOf col) D A :=
@@ -370,6 +373,28 @@ theorem T04_choi_executes (conj : α →+* α) (n : Nat) (col : Bool) (ch : Chan
   rw [applyChoi_choiOf conj (2 ^ n) n col _ _ hi hj]
   exact wKraus_choiTerms_executes conj n ch hg ρ hi hj
 
+/-- **`to_pauli_liouville`** (row order, un-normalised, `IXYZ` order) of ANY term list is the Pauli
+transfer matrix of the weighted Kraus map: entry `(a, b)` = `⟨P_a , Σ_k c_k K_k P_b K_k†⟩` with
+the Hilbert–Schmidt inner product, every `n`. -/
+theorem T04_pauli_liouville_is_transfer_matrix (conj : α → α) (I : α) (n : Nat)
+    (terms : List (α × (Nat → Nat → α))) (a b : Nat) :
+    pauliLiouvilleOf conj I n (liouvilleOf conj (2 ^ n) false terms) a b
+      = ∑ i ∈ range (2 ^ n), ∑ j ∈ range (2 ^ n),
+          conj (pauliBasisMat I n a i j) * wKraus conj (2 ^ n) terms (pauliBasisMat I n b) i j :=
+  pauliLiouvilleOf_eq conj I n terms a b
+
+/-- … and for a channel object it is the transfer matrix of the EXECUTED generic path:
+entry `(a, b)` = `⟨P_a , execute(ch, P_b)⟩`. -/
+theorem T04_pauli_liouville_executes (conj : α →+* α) (I : α) (n : Nat) (ch : Chan α)
+    (hg : ∀ g ∈ ch.gates, g.targets.Nodup ∧ ∀ t ∈ g.targets, t < n) (a b : Nat) :
+    pauliLiouvilleOf conj I n
+        (liouvilleOf conj (2 ^ n) false (choiTerms n ch true (1 - ch.csum))) a b
+      = ∑ i ∈ range (2 ^ n), ∑ j ∈ range (2 ^ n),
+          conj (pauliBasisMat I n a i j)
+            * applyChannelDM conj ch (matDM n (pauliBasisMat I n b))
+                (Lab.ofIndex n i) (Lab.ofIndex n j) :=
+  pauliLiouvilleOf_executes conj I n ch hg a b
+
 /-- non-vacuity: the 2-qubit Pauli noise channel on the non-ascending pair `(2, 0)` of a 3-qubit
 register over ℂ, column order, entry `(5, 3)`. -/
 example (p q : ℂ) (ρ : DM ℂ) :
@@ -379,6 +404,21 @@ example (p q : ℂ) (ρ : DM ℂ) :
       = applyChannelDM (starRingEnd ℂ) ch ρ (Lab.ofIndex 3 5) (Lab.ofIndex 3 3) := by
   intro ch
   refine T04_liouville_executes (starRingEnd ℂ) 3 true ch ?_ ρ (by decide) (by decide)
+  intro g hg
+  simp [ch, pauliChan, unitaryChan] at hg
+  rcases hg with rfl | rfl <;> simp
+
+/-- non-vacuity of the transfer-matrix statement: the same channel, entry `(⟨XIZ|, |IYI⟩)`. -/
+example (p q : ℂ) :
+    let ch := pauliChan Complex.I [2, 0] [([1, 2], p), ([3, 0], q)]
+    pauliLiouvilleOf (starRingEnd ℂ) Complex.I 3
+        (liouvilleOf (starRingEnd ℂ) (2 ^ 3) false (choiTerms 3 ch true (1 - ch.csum))) 19 8
+      = ∑ i ∈ range (2 ^ 3), ∑ j ∈ range (2 ^ 3),
+          (starRingEnd ℂ) (pauliBasisMat Complex.I 3 19 i j)
+            * applyChannelDM (starRingEnd ℂ) ch (matDM 3 (pauliBasisMat Complex.I 3 8))
+                (Lab.ofIndex 3 i) (Lab.ofIndex 3 j) := by
+  intro ch
+  refine T04_pauli_liouville_executes (starRingEnd ℂ) Complex.I 3 ch ?_ 19 8
   intro g hg
   simp [ch, pauliChan, unitaryChan] at hg
   rcases hg with rfl | rfl <;> simp
